@@ -326,7 +326,7 @@ def _has_uf(t):
     return False
 
 
-def prove_eq(p, hyps, order, timeout=30, use_cache=True, want_groebner=True, facts=()):
+def prove_eq(p, hyps, order, timeout=30, use_cache=True, want_groebner=True, facts=(), hyp_main=None):
     """Try to prove p == 0 from hyps (lists of z3 terms). order: symbol names, creation order.
     A certificate is (M, c_i) with  M*p == sum c_i h_i  as a polynomial identity (checked by z3)
     and M != 0 under `facts` (checked by z3).
@@ -355,11 +355,12 @@ def prove_eq(p, hyps, order, timeout=30, use_cache=True, want_groebner=True, fac
     except ValueError as e:
         out['detail'] = 'goal not polynomial: %s' % e
         return fin()
-    hyps_ok, hyps_s_all = [], []
+    hyps_ok, hyps_s_all, mains_all = [], [], []
     for h in hyps:
         try:
             hyps_s_all.append(z3_to_sympy(h, cache))
             hyps_ok.append(h)
+            mains_all.append((hyp_main or {}).get(h.get_id()))
         except ValueError:
             continue          # a non-polynomial hypothesis is simply not used
     hyps = hyps_ok
@@ -371,6 +372,7 @@ def prove_eq(p, hyps, order, timeout=30, use_cache=True, want_groebner=True, fac
     idx = relevant_hyps(psyms, hsyms)
     hyps_s = [hyps_s_all[i] for i in idx]
     hyps_z = [hyps[i] for i in idx]
+    mains = [mains_all[i] for i in idx]
     allsyms = set(psyms)
     for i in idx:
         allsyms |= hsyms[i]
@@ -393,7 +395,7 @@ def prove_eq(p, hyps, order, timeout=30, use_cache=True, want_groebner=True, fac
 
     if cof is None:
         try:
-            mult, cof, detail, status = _find_cofactors(p_s, hyps_s, gens, want_groebner, timeout)
+            mult, cof, detail, status = _find_cofactors(p_s, hyps_s, gens, want_groebner, timeout, mains)
         except Exception as e:       # sympy failure: no proof, never a verdict
             mult, cof, detail, status = None, None, 'hint generator failed: %r' % (e,), 'unknown'
         out['detail'] = out.get('detail', '') + detail if out.get('detail', '').startswith('uninterpreted') else detail
@@ -430,7 +432,7 @@ def prove_eq(p, hyps, order, timeout=30, use_cache=True, want_groebner=True, fac
     return fin()
 
 
-def _triangular(P, H, gens, allow_block=False):
+def _triangular(P, H, gens, allow_block=False, mains=None):
     """Wu-Ritt style reduction.  Each hypothesis has a main variable (its newest symbol).
     Hypotheses with a main variable of their own form the triangular part and are eliminated by
     successive pseudo-division (newest first): M * P = sum c_i h_i + R.  Hypotheses that share a
@@ -445,6 +447,10 @@ def _triangular(P, H, gens, allow_block=False):
         if not fs:
             continue
         v = min(fs, key=lambda g: pos[g])
+        if mains and mains[idx] is not None:
+            cand = [g for g in fs if g.name == mains[idx]]
+            if cand:
+                v = cand[0]          # the hypothesis is a definition of this symbol
         items.append((pos[v], idx, v, h))
     items.sort()
     count = {}
@@ -467,6 +473,7 @@ def _triangular(P, H, gens, allow_block=False):
     R = P.as_expr()
     M = sympy.Integer(1)
     cof = [sympy.Integer(0)] * len(H)
+    tried = 0
     for pv, idx, v, h in items:
         if R == 0:
             break
@@ -474,6 +481,16 @@ def _triangular(P, H, gens, allow_block=False):
             continue
         if v in blockvars:
             return None            # a definition below the block: not handled
+        if block and tried < 6 and sympy.degree(R, v) >= 1:
+            # before unfolding this (older) definition: is the remainder already in the ideal of the block?
+            try:
+                if len(sympy.Add.make_args(R)) <= 600:
+                    tried += 1
+                    bc, _d, _dec = _block_reduce(R, H, block, gens)
+                    if bc is not None:
+                        return M, cof, R, block
+            except Exception:
+                pass
         he = h.as_expr()
         dR = sympy.degree(R, v)
         dh = sympy.degree(he, v)
@@ -564,7 +581,7 @@ def _lift_linear(g, Hn, gens):
     return [sympy.Rational(x.subs(sub)) for x in sol]
 
 
-def _find_cofactors(p_s, hyps_s, gens, want_groebner, timeout=30):
+def _find_cofactors(p_s, hyps_s, gens, want_groebner, timeout=30, mains=None):
     """-> (multiplier Poly, cofactor Polys | None, detail, status); three strategies, each with a
     third of the time budget: triangular pseudo-division, lex division, Groebner basis + lift"""
     one = sympy.Poly(1, *gens, domain='QQ')
@@ -585,9 +602,17 @@ def _find_cofactors(p_s, hyps_s, gens, want_groebner, timeout=30):
     share = max(2, timeout // 2)
     notes = []
     decided_not = False
+    mains_n = [mains[i] for i in keep] if mains else None
+    # strategy 0: the goal is a constant-coefficient combination of the hypotheses (linear algebra only)
+    try:
+        lam = _lift_linear(P, Hn, gens)
+        if lam is not None:
+            return one, place([sympy.Poly(l, *gens, domain='QQ') for l in lam]), 'constant combination of the hypotheses', 'ok'
+    except Exception:
+        pass
     try:
         with time_limit(share):
-            tri = _triangular(P, Hn, gens, allow_block=True)
+            tri = _triangular(P, Hn, gens, allow_block=True, mains=mains_n)
             if tri is None:
                 notes.append('hypotheses are not triangular-plus-block')
             else:
